@@ -152,6 +152,8 @@ func (p *Program) preDecodeBlocks() ExitReason {
 	idata := p.InstructionData
 	bitmask := p.Bitmasks
 	n := len(idata)
+	// operands are decoded from the zero-extended code (GP A.3)
+	operandData := zeroExtend(idata)
 
 	p.Instrs = make([]InstrMeta, 0, n/4)
 	p.BlockAt = make([]*BlockMeta, n)
@@ -192,7 +194,7 @@ func (p *Program) preDecodeBlocks() ExitReason {
 			})
 			p.InstrIdxAt[pc] = int32(idx)
 
-			decodeOperands(&p.Instrs[idx], idata, bitmask)
+			decodeOperands(&p.Instrs[idx], operandData, bitmask)
 
 			if IsBlockTerminator(op) {
 				block.EndPC = pc
